@@ -80,7 +80,7 @@ fn judge(e: &Exec) -> Vec<(String, String)> {
 pub fn run(tier: Tier) -> i32 {
     let ctx = Ctx::new("C15", tier, "model_checking");
     ctx.bind_model(); // the reference AEAD (REKEY) is checked against its KATs first
-    let (depth, devs) = if ctx.quick() { (4, 1) } else { (6, 2) };
+    let (depth, devs) = if ctx.quick() { (5, 1) } else { (6, 2) };
     ctx.set_rule(format!("explicit-state BFS over sequences of {{write, read(latest peer message), rekey_outgoing, rekey_incoming, rekey_manually, rekey_initiator_manually, rekey_responder_manually}} on both endpoints, stateful and stateless, depth {depth}; each transition on real snow objects vs the key-term model, message bytes vs the reference AEAD"));
     let mut specs = vec![];
     for (c, b) in cipher_backends() {
